@@ -259,7 +259,7 @@ def hostile_map(route):
     q = {"q:playready__la_url": la, "q:marlin__la_url": la, "q:clearkey__la_url": la, "q:acodec": h, "q:tcodec": h,
          # the DRM context also reads these (single underscore) request parameters directly
          "q:playready_la_url": la, "q:marlin_la_url": la, "q:clearkey_la_url": la,
-         "q:main_audio": h, "q:ad_audio": h, "q:main_text": h, "q:tlang": h, "q:time_value": h, "q:ntp_servers": h,
+         "q:main_audio": h, "q:scte35__value": h, "q:ping__value": h, "q:ad_audio": h, "q:main_text": h, "q:tlang": h, "q:time_value": h, "q:ntp_servers": h,
          "host": st.sampled_from(["evil.example", "a.b:8080", "xn--e1afmkfd.example", "[::1]", "h\"x", "h<x>", "h&x"])}
     return st.fixed_dictionaries({}, optional={**stored, **q})
 
